@@ -433,7 +433,7 @@ impl OptSpec {
             lbd_coef: [0.5, 1.0, 1.25][r.gen_range(0..3)],
             num_assigned_coef: [0.5, 1.4, 10.0][r.gen_range(0..3)],
             num_assigned_window: r.gen_range(1..50),
-            nogood_limit: r.gen_range(0..7),
+            nogood_limit: if r.gen_range(0..10) < 7 { r.gen_range(0..7) } else { 4000 },
             lbd_threshold: r.gen_range(0..4),
             sort_by_activity: r.gen_bool(0.5),
             tiny_max_activity: r.gen_range(0..4) == 0,
@@ -495,9 +495,11 @@ impl OptSpec {
             ("tiny_max_activity", Json::Bool(self.tiny_max_activity)),
         ])
     }
-    /// Option tuple on which everything learned is deletable and restarts discard the search.
+    /// Option tuples on which bounded progress is not guaranteed by design of the search: restarts
+    /// are on while (a) learned nogoods are deleted above a tiny limit or (b) nothing is learned at
+    /// all, so a restart can discard all progress.
     pub fn class_thrash(&self) -> bool {
-        !self.is_default && !self.no_learning && self.lbd_threshold == 0 && self.nogood_limit <= 4 && !self.no_restarts
+        !self.is_default && !self.no_restarts && (self.no_learning || self.nogood_limit <= 6)
     }
 }
 
